@@ -72,6 +72,7 @@ def c16_step(F):
                     dropped = n.stats["num_item_discarded"] - st.get("drops_at_start", 0)
                     if len(st["todo"]) + 1 - dropped != 0:
                         F.soft("C16:splitter-took-a-new-pallet-before-emitting-the-previous-one-completely", {"left": len(st["todo"]), "dropped": dropped})
+                        F.soft("C08:splitter-holds-more-than-one-unit-of-work", {"left": len(st["todo"]), "dropped": dropped})
                 st["pallet"], st["todo"], st["emitted"], st["t"], st["done"] = ev[4].obj, list(ev[6]), [], t, False
                 st["drops_at_start"] = n.stats["num_item_discarded"]
             elif kind == "put":
@@ -141,7 +142,8 @@ def pk_conservation(F):
 
 
 def pk(props=("C16", "C03"), recipe=(1, 1), n_pallets=2, blocking=True, split_out=1, split_sel="FIRST_AVAILABLE", sym=("ip", "ii", "pd"), comb_cap=2,
-       until=None, twin=False, split_blocking=None, item_cap=2, mid_cap=1, out_cap=1, out_delay=0, comb_only=False, split_pd="sym", setup=0):
+       until=None, twin=False, split_blocking=None, item_cap=2, mid_cap=1, out_cap=1, out_delay=0, comb_only=False, split_pd="sym", setup=0,
+       mid_mode="FIFO", split_sd_hi=3, split_in_sel="FIRST_AVAILABLE"):
     """pallet source + item source(s) -> Combiner(recipe) -> MID -> Splitter -> OUT_j -> sinks"""
     def fn(ctx):
         from factorysimpy.nodes.source import Source
@@ -163,7 +165,7 @@ def pk(props=("C16", "C03"), recipe=(1, 1), n_pallets=2, blocking=True, split_ou
         ip = ctx.real("ip", 0.5, 3) if "ip" in sym else 1
         ii = [ctx.real("ii", 0.25, 3) if "ii" in sym else 1 for _ in range(n_ing)]
         pd = ctx.real("pd", 0, 3) if "pd" in sym else 1
-        sd = ctx.real("sd", 0, 3) if split_pd == "sym" and "sd" in sym else 1
+        sd = ctx.real("sd", 0, split_sd_hi) if split_pd == "sym" and "sd" in sym else 1
         od = ctx.real("od", 0, 3) if out_delay == "sym" else out_delay
         need = [recipe[i + 1] * n_pallets for i in range(n_ing)]
         comb = F.add_node(Combiner(env, "CMB", target_quantity_of_each_item=list(recipe), processing_delay=F.delay_source("CMB", [pd] * (n_pallets + 1), "callable", after=1),
@@ -185,9 +187,10 @@ def pk(props=("C16", "C03"), recipe=(1, 1), n_pallets=2, blocking=True, split_ou
         else:
             spl = F.add_node(Splitter(env, "SPL", processing_delay=F.delay_source("SPL", [sd] * (n_pallets + 1), "callable", after=1),
                                       blocking=blocking if split_blocking is None else split_blocking,
+                                      in_edge_selection=split_in_sel,
                                       out_edge_selection=_policy(F, ctx, "SPL", "out", split_sel, split_out, 0), node_setup_time=setup))
             F.unit_delay["SPL"] = sd
-            em = _edge(F, "buffer", "MID", mid_cap, 0)
+            em = _edge(F, "buffer", "MID", mid_cap, 0, mode=mid_mode)
             em.connect(comb, spl)
             for j in range(split_out):
                 k = F.add_node(Sink(env, f"K{j}"))
@@ -199,6 +202,10 @@ def pk(props=("C16", "C03"), recipe=(1, 1), n_pallets=2, blocking=True, split_ou
             F.step_hooks.append(c16_step)
         if "C03" in F.props:
             F.instant_hooks.append(pk_conservation)
+        if "C09" in F.props:
+            from .m2s import c09_step, c09_instant
+            F.step_hooks.append(c09_step)
+            F.instant_hooks.append(c09_instant)
         Tend = until
         if until == "sym":
             Tend = ctx.real("T", 0.25, 10)
@@ -217,6 +224,9 @@ def pk(props=("C16", "C03"), recipe=(1, 1), n_pallets=2, blocking=True, split_ou
         else:
             if "C17" in F.props:
                 c17_pk(F, Tend)
+            if "C18" in F.props:
+                from .m2s import c18_final
+                c18_final(F, Tend)
         ctx.log("recv", tuple(k.stats["num_item_received"] for k in sinks))
         ctx.hit("complete")
         if twin:
